@@ -19,16 +19,30 @@ pub open spec fn esc_at(s: Seq<u8>, b: int, pe: bool, k: nat) -> bool
     if k == 0 { pe } else { !esc_at(s, b, pe, (k - 1) as nat) && s[b + k - 1] == 0x5c }
 }
 
+// the same recurrence over the backslash mask of a block (this is literally the reference loop of the Kani
+// harness escaped_branchless_u32_all)
+pub open spec fn esc_bits(bs: u32, pe: bool, k: nat) -> bool
+    decreases k
+{
+    if k == 0 { pe } else { !esc_bits(bs, pe, (k - 1) as nat) && bit32(bs, k - 1) }
+}
 #[verifier::external_body]
 pub fn get_escaped_branchless_u32(prev_escaped: &mut u32, backslash: u32) -> (r: u32)
     requires *old(prev_escaped) <= 1,
     ensures *final(prev_escaped) <= 1,
-        // for any byte block whose backslash mask is `backslash`: bit k <=> lane k is escaped; carry = lane 32
-        forall|s: Seq<u8>, b: int| #![trigger esc_at(s, b, *old(prev_escaped) == 1, 32)]
-            (0 <= b && b + 32 <= s.len() && forall|j: int| 0 <= j < 32 ==> bit32(backslash, j) == (s[b + j] == 0x5c)) ==>
-            (forall|k: int| 0 <= k < 32 ==> #[trigger] bit32(r, k) == esc_at(s, b, *old(prev_escaped) == 1, k as nat))
-            && (*final(prev_escaped) == 1) == esc_at(s, b, *old(prev_escaped) == 1, 32),
+        forall|k: int| 0 <= k < 32 ==> #[trigger] bit32(r, k) == esc_bits(backslash, *old(prev_escaped) == 1, k as nat),
+        (*final(prev_escaped) == 1) == esc_bits(backslash, *old(prev_escaped) == 1, 32),
 { unimplemented!() }
+pub proof fn lemma_esc_bits_at(s: Seq<u8>, b: int, pe: bool, bs: u32, k: nat)
+    requires 0 <= b, b + 32 <= s.len(), k <= 32, forall|j: int| 0 <= j < 32 ==> bit32(bs, j) == (#[trigger] s[b + j] == 0x5c),
+    ensures esc_bits(bs, pe, k) == esc_at(s, b, pe, k),
+    decreases k
+{
+    if k > 0 {
+        lemma_esc_bits_at(s, b, pe, bs, (k - 1) as nat);
+        assert(bit32(bs, k - 1) == (s[b + (k - 1)] == 0x5c));
+    }
+}
 
 // scanning from b+k with the right carry, skipping lanes that hold no unescaped quote
 pub proof fn lemma_uq_skip(s: Seq<u8>, b: int, pe: bool, k: nat, m: nat)
@@ -55,8 +69,10 @@ pub proof fn lemma_no_esc(s: Seq<u8>, b: int, m: nat)
 {
     if m > 0 {
         lemma_no_esc(s, b, (m - 1) as nat);
+        assert(s[b + (m - 1)] != 0x5c);
+        assert(!esc_at(s, b, false, m));
         assert forall|k: nat| k <= m implies !#[trigger] esc_at(s, b, false, k) by {
-            if k == m { assert(!esc_at(s, b, false, (m - 1) as nat)); }
+            if k < m { assert(k <= (m - 1) as nat); }
         }
     }
 }
@@ -85,16 +101,138 @@ pub proof fn lemma_uq_bounds(s: Seq<u8>, i: int, esc: bool)
     else { lemma_uq_bounds(s, i + 1, false); }
 }
 
-pub proof fn lemma_sub1_mask(q: u32, bs: u32)
-    ensures ((sub(q, 1u32) & bs) == 0) <==> (forall|j: int| 0 <= j < 32 && (q == 0 || j < vstd::std_specs::bits::u32_trailing_zeros(q) as int) ==> !bit32(bs, j)),
+pub open spec fn tz32(m: u32) -> int { vstd::std_specs::bits::u32_trailing_zeros(m) as int }
+// bits of q-1 (wrapping) relative to the lowest set bit t of q (t == 32 <=> q == 0)
+pub proof fn lemma_sub1_bits(q: u32, r: u32, t: u32, j: u32)
+    requires j < 32, t <= 32, r == sub(q, 1u32),
+        t < 32 ==> (((q >> t) & 1u32) == 1u32 && (q & sub(1u32 << t, 1u32)) == 0u32),
+        t == 32 ==> q == 0u32,
+    ensures ((r >> j) & 1u32) == 1u32 <==> (j < t || (j > t && ((q >> j) & 1u32) == 1u32)),
 {
-    admit();
+    assert(((r >> j) & 1u32) == 1u32 <==> (j < t || (j > t && ((q >> j) & 1u32) == 1u32))) by (bit_vector)
+        requires j < 32, t <= 32, r == sub(q, 1u32),
+            t < 32 ==> (((q >> t) & 1u32) == 1u32 && (q & sub(1u32 << t, 1u32)) == 0u32),
+            t == 32 ==> q == 0u32;
+}
+pub proof fn lemma_low_mask(q: u32)
+    ensures ({ let t = tz32(q); t < 32 ==> (q & sub(1u32 << (t as u32), 1u32)) == 0u32 && ((q >> (t as u32)) & 1u32) == 1u32 }),
+        q == 0 <==> tz32(q) == 32, 0 <= tz32(q) <= 32,
+        forall|j: int| 0 <= j < tz32(q) ==> !bit32(q, j),
+        q != 0 ==> bit32(q, tz32(q)),
+{
+    vstd::std_specs::bits::axiom_u32_trailing_zeros(q);
+    let t = tz32(q);
+    if t < 32 {
+        let tt = t as u32;
+        assert(q << sub(32u32, tt) == 0u32 ==> (q & sub(1u32 << tt, 1u32)) == 0u32) by (bit_vector) requires tt < 32;
+    }
+}
+// (q - 1) & bs, for disjoint q and bs: exactly the bs bits strictly below the lowest set bit of q
+pub proof fn lemma_sub1_and(q: u32, r: u32, bs: u32)
+    requires r == sub(q, 1u32), q & bs == 0,
+    ensures (r & bs) == 0 <==> (forall|j: int| 0 <= j < tz32(q) ==> !bit32(bs, j)),
+        forall|j: int| 0 <= j < 32 && bit32(r & bs, j) ==> j < tz32(q) && #[trigger] bit32(bs, j),
+{
+    lemma_low_mask(q);
+    let t = tz32(q) as u32;
+    assert forall|j: int| 0 <= j < 32 implies (#[trigger] bit32(r & bs, j) == (j < t && bit32(bs, j))) by {
+        let ju = j as u32;
+        lemma_sub1_bits(q, r, t, ju);
+        assert((((r & bs) >> ju) & 1u32) == 1u32 <==> ((((r >> ju) & 1u32) == 1u32) && (((bs >> ju) & 1u32) == 1u32))) by (bit_vector) requires ju < 32;
+        assert(!((((q >> ju) & 1u32) == 1u32) && (((bs >> ju) & 1u32) == 1u32))) by (bit_vector) requires ju < 32, q & bs == 0;
+    }
+    if (r & bs) == 0 {
+        assert forall|j: int| 0 <= j < tz32(q) implies !bit32(bs, j) by { lemma_zero32(j as u32); assert(!bit32(r & bs, j)); }
+    } else {
+        lemma_tz32(r & bs);
+    }
+}
+pub proof fn lemma_andnot_bits(q: u32, e: u32, j: u32)
+    requires j < 32,
+    ensures bit32(q & !e, j as int) == (bit32(q, j as int) && !bit32(e, j as int)),
+{
+    assert((((q & !e) >> j) & 1u32) == 1u32 <==> ((((q >> j) & 1u32) == 1u32) && !(((e >> j) & 1u32) == 1u32))) by (bit_vector) requires j < 32;
+}
+
+// one 32-lane step of skip_string_unchecked, as a lemma over the masks
+pub proof fn lemma_uq_block(s: Seq<u8>, i0: int, b: int, pe: bool, bs: u32, q0: u32, analysis: bool, escaped: u32, carry: bool, en: int)
+    requires 0 <= i0 <= b, b + 32 <= s.len(),
+        forall|j: int| 0 <= j < 32 ==> bit32(bs, j) == (#[trigger] s[b + j] == 0x5c),
+        forall|j: int| 0 <= j < 32 ==> bit32(q0, j) == (#[trigger] s[b + j] == 0x22),
+        uq_end(s, b, pe) == Some(en),
+        pe ==> b > i0 && s[b - 1] == 0x5c,
+        analysis == (pe || exists|j: int| 0 <= j < tz32(q0) && bit32(bs, j)),
+        analysis ==> (forall|k: int| 0 <= k < 32 ==> #[trigger] bit32(escaped, k) == esc_bits(bs, pe, k as nat)) && carry == esc_bits(bs, pe, 32),
+        !analysis ==> !carry,
+    ensures ({
+        let qb = if analysis { q0 & !escaped } else { q0 };
+        let newidx = if qb != 0 { b + tz32(qb) + 1 } else { b + 32 };
+        &&& (qb != 0 ==> en == newidx)
+        &&& (qb == 0 ==> uq_end(s, b + 32, carry) == Some(en))
+        &&& (qb == 0 && carry ==> s[b + 31] == 0x5c)
+        &&& (analysis ==> has_bs(s, i0, newidx))
+        &&& (!analysis ==> has_bs(s, i0, newidx) == has_bs(s, i0, b))
+    }),
+{
+    lemma_low_mask(q0);
+    let qb = if analysis { q0 & !escaped } else { q0 };
+    lemma_low_mask(qb);
+    assert forall|k: nat| k <= 32 implies esc_bits(bs, pe, k) == esc_at(s, b, pe, k) by { lemma_esc_bits_at(s, b, pe, bs, k); }
+    // which lanes hold an unescaped quote (fast path: only up to and including the first raw quote)
+    let lim = if analysis { 32int } else if q0 == 0 { 32int } else { tz32(q0) + 1 };
+    if !analysis {
+        assert(!pe);
+        assert(forall|j: int| 0 <= j < tz32(q0) ==> !bit32(bs, j));
+        let m = tz32(q0);
+        assert forall|j: int| 0 <= j < m implies #[trigger] s[b + j] != 0x5c by { assert(!bit32(bs, j)); }
+        lemma_no_esc(s, b, m as nat);
+    }
+    assert forall|k: int| 0 <= k < lim && k < 32 implies #[trigger] bit32(qb, k) == (s[b + k] == 0x22 && !esc_at(s, b, pe, k as nat)) by {
+        if analysis { lemma_andnot_bits(q0, escaped, k as u32); }
+        else { assert(!esc_at(s, b, false, k as nat)); }
+    }
+    if qb != 0 {
+        let k = tz32(qb);
+        if !analysis { assert(k == tz32(q0)); }
+        assert forall|j: int| 0 <= j < k implies !(#[trigger] s[b + j] == 0x22 && !esc_at(s, b, pe, j as nat)) by { assert(!bit32(qb, j)); }
+        lemma_uq_skip(s, b, pe, 0, k as nat);
+        lemma_uq_hit(s, b, pe, k as nat);
+    } else {
+        assert forall|j: int| 0 <= j < 32 implies !(#[trigger] s[b + j] == 0x22 && !esc_at(s, b, pe, j as nat)) by {
+            lemma_zero32(j as u32); assert(!bit32(qb, j));
+        }
+        lemma_uq_skip(s, b, pe, 0, 32);
+        if analysis { assert(carry == esc_at(s, b, pe, 32)); }
+        else {
+            // q0 == 0: no backslash at all in the block
+            assert(q0 == 0);
+            assert(!esc_at(s, b, false, 32));
+        }
+    }
+    let newidx = if qb != 0 { b + tz32(qb) + 1 } else { b + 32 };
+    if analysis {
+        if pe { lemma_has_bs_witness(s, i0, b - 1, newidx); }
+        else {
+            let j = choose|j: int| 0 <= j < tz32(q0) && bit32(bs, j);
+            // the first unescaped quote is at or after the first raw quote
+            if qb != 0 { assert(bit32(qb, tz32(qb))); assert(bit32(q0, tz32(qb))) by { lemma_andnot_bits(q0, escaped, tz32(qb) as u32); } assert(tz32(qb) >= tz32(q0)); }
+            lemma_has_bs_witness(s, i0, b + j, newidx);
+        }
+    } else {
+        assert forall|j: int| b <= j < newidx implies #[trigger] s[j] != 0x5c by {
+            if j - b < tz32(q0) { assert(!bit32(bs, j - b)); assert(s[b + (j - b)] != 0x5c); }
+            else { assert(q0 != 0 && j - b == tz32(q0)); assert(bit32(q0, j - b)); assert(s[b + (j - b)] == 0x22); }
+        }
+        lemma_has_bs_extend(s, i0, b, newidx);
+    }
 }
 
 impl<'de, R: Reader<'de>> Parser<R> {
 //@extract file=src/parser.rs impl="Parser<R>" fn=skip_string_unchecked
 //@attr
     #[verifier::loop_isolation(false)]
+//@subst /let r = &mut self\.read;/ => let _r = ();
+//@subst /\br\./ => self.read. #all
 //@sig
         requires old(self).pinv(),
             // the unsafe contract of the unchecked API: the reader stands inside a well-formed string literal
@@ -103,5 +241,65 @@ impl<'de, R: Reader<'de>> Parser<R> {
             res.is_ok(),
             final(self).read.idx() == str_end(old(self).read.data(), old(self).read.idx() as int).unwrap(),
             is_esc_status(res.unwrap()) <==> has_bs(old(self).read.data(), old(self).read.idx() as int, final(self).read.idx() as int),
+//@after /let mut status = ParseStatus::None;/
+        let ghost s = self.read.data();
+        let ghost i0 = self.read.idx() as int;
+        let ghost en = str_end(s, i0).unwrap();
+        proof { lemma_str_end_is_uq(s, i0); lemma_str_end_bounds(s, i0); }
+//@loop 1
+            invariant self.pinv(), self.same_doc(old(self)), self.same_cache(old(self)), i0 <= self.read.idx(),
+                prev_escaped <= 1,
+                uq_end(s, self.read.idx() as int, prev_escaped == 1) == Some(en),
+                prev_escaped == 1 ==> self.read.idx() > i0 && s[self.read.idx() - 1] == 0x5c,
+                is_esc_status(status) <==> has_bs(s, i0, self.read.idx() as int),
+            decreases s.len() - self.read.idx(),
+//@after /quote_bits = /
+            let ghost base = self.read.idx() as int;
+            let ghost pe0 = prev_escaped == 1;
+            let ghost q0 = quote_bits;
+            let ghost mut analysis = false;
+            let ghost mut esc_g = 0u32;
+            let ghost qm1 = quote_bits.wrapping_sub(1);
+            proof {
+                assert forall|j: int| 0 <= j < 32 implies bit32(bs_bits, j) == (#[trigger] s[base + j] == 0x5c) by { assert(chunk@[j] == s[base + j]); assert(v.lanes[j] == chunk@[j]); }
+                assert forall|j: int| 0 <= j < 32 implies bit32(q0, j) == (#[trigger] s[base + j] == 0x22) by { assert(chunk@[j] == s[base + j]); assert(v.lanes[j] == chunk@[j]); }
+                assert(q0 & bs_bits == 0) by {
+                    if q0 & bs_bits != 0 {
+                        lemma_tz32(q0 & bs_bits);
+                        let k = tz32(q0 & bs_bits) as u32;
+                        assert((((q0 & bs_bits) >> k) & 1u32) == 1u32 ==> ((((q0 >> k) & 1u32) == 1u32) && (((bs_bits >> k) & 1u32) == 1u32))) by (bit_vector) requires k < 32;
+                        assert(s[base + k] == 0x22 && s[base + k] == 0x5c);
+                    }
+                }
+                assert(qm1 == sub(q0, 1u32)) by (bit_vector) requires (q0 == 0u32 ==> qm1 == 0xffff_ffffu32), (q0 != 0u32 ==> qm1 == sub(q0, 1u32));
+                lemma_sub1_and(q0, qm1, bs_bits);
+                if (qm1 & bs_bits) != 0 { lemma_tz32(qm1 & bs_bits); }
+            }
+//@after /quote_bits &= !escaped;/
+                proof { analysis = true; esc_g = escaped; }
+//@before /^            if quote_bits != 0 \{/
+            proof {
+                assert(analysis == (pe0 || exists|j: int| 0 <= j < tz32(q0) && bit32(bs_bits, j)));
+                lemma_uq_block(s, i0, base, pe0, bs_bits, q0, analysis, esc_g, prev_escaped == 1, en);
+                if quote_bits != 0 { lemma_tz32(quote_bits); }
+            }
+//@before /^        if prev_escaped != 0 \{/
+        proof { lemma_uq_bounds(s, self.read.idx() as int, prev_escaped == 1); }
+//@loop 2
+            invariant self.pinv(), self.same_doc(old(self)), self.same_cache(old(self)), i0 <= self.read.idx(),
+                uq_end(s, self.read.idx() as int, false) == Some(en),
+                is_esc_status(status) <==> has_bs(s, i0, self.read.idx() as int),
+            decreases s.len() - self.read.idx(),
+//@before /^            if ch == b/ #1
+            let ghost ci = self.read.idx() as int;
+            proof { reveal_with_fuel(uq_end, 3); lemma_uq_bounds(s, ci, false); }
+//@before /^\s+break;/
+                    proof { assert(false); }
+//@before /^\s+continue;/ #1
+                proof { lemma_has_bs_witness(s, i0, ci, ci + 2); }
+//@before /^            if ch == b/ #2
+            proof { lemma_has_bs_extend(s, i0, ci, ci + 1); }
+//@before /^        perr!\(self, EofWhileParsing\)/
+        proof { lemma_uq_bounds(s, self.read.idx() as int, false); assert(false); }
 //@end
 }
